@@ -9,7 +9,7 @@ from ..runner import Leg, Res, libcall
 
 PROPERTY = 'C19'
 NEED_C = False
-RULE = ('Hypothesis draws a non-negative finite distance array (1-3 axes, 1..30 elements; values 0 or in '
+RULE = ('Hypothesis draws a non-negative finite distance array (1-3 axes, 1..30 elements, one case in 16 with 257..420 elements; values 0 or in '
         '[1e-3, 1e6], lattice or float; forced zeros, duplicates, single elements, all-equal arrays), a method '
         '(every documented name, mixed case for distance_to_similarity), explicit or data-derived r / a / x0 / '
         'base, cover_quantile in {False, q, (q, target)} with q, target in [0.05, 0.95], keep_sign. Oracles: '
@@ -28,6 +28,8 @@ SQ_METHODS = ['logistic', 'gaussian', 'exponential']
 @st.composite
 def _array(draw):
     n = draw(st.integers(1, 30))
+    if draw(st.integers(0, 15)) == 0:
+        n = draw(st.integers(257, 420))     # occasionally a large array (e.g. the 17x17 .. 20x20 distance matrix of a real data set)
     kind = draw(st.sampled_from(['lattice', 'float', 'float', 'allequal', 'allzero', 'integer']))
     if kind == 'integer':
         vals = [float(v) for v in draw(st.lists(st.integers(0, 12), min_size=n, max_size=n))]
